@@ -205,6 +205,23 @@ def _write_safe(ctx):
                                                       ast.Name):
             defs.setdefault(sub.targets[0].id, []).append(N.txt(sub.value))
     dsrc = defs.get(N.txt(dirkw), []) if dirkw is not None else []
+    if dirkw is not None and not dsrc:
+        dsrc = [N.txt(dirkw)]
+    # ... each read through the locals it is built from, a conditional
+    # expression counting as two bindings
+    cases = []
+    for sub in K.walk_no_nested(func.node):
+        if isinstance(sub, ast.Assign) and dirkw is not None and \
+                N.txt(sub.targets[0]) == N.txt(dirkw):
+            val = sub.value
+            for part in ([val.body, val.orelse]
+                         if isinstance(val, ast.IfExp) else [val]):
+                text = K.rtxt(func, part)
+                # a join on the variable itself keeps its own spelling
+                cases.append(N.txt(part) if N.txt(part).startswith(
+                    'os.path.join(%s,' % N.txt(dirkw)) else text)
+    if cases:
+        dsrc = cases
     # every binding is the destination's directory or a sub-directory of it
     # (of the variable itself, or of dirname(dest) spelled out)
     base = 'os.path.dirname(%s)' % dest
